@@ -460,12 +460,20 @@ def dual_generic(P, E):
     return not bool(np.any(np.abs(diff - np.floor(diff) - 0.5) < 1e-9))
 
 
-def k_trunc(m, out_lat, S):
+def k_trunc(m, out_lat, S, n_orig_edges=None):
     if "err" in m:
         return f"model returned {m['err']}, implementation returned a lattice"
     p2, e2, c2 = arr(out_lat)
     if len(m["pos"]) != len(p2):
         return f"n_vertices model {len(m['pos'])} impl {len(p2)}"
+    if n_orig_edges is not None and len(m["edges"]) == len(e2) and len(m["cr"]) == len(c2):
+        # the property fixes the indices of the ORIGINAL edges only; the sides of the new polygons come after them in an
+        # order the statement leaves open: compare that tail as a multiset of (i, j, crossing) rows
+        k = n_orig_edges
+        mrows = sorted((tuple(r) + tuple(c)) for r, c in zip(m["edges"][k:], m["cr"][k:]))
+        irows = sorted((tuple(int(x) for x in r) + tuple(int(x) for x in c)) for r, c in zip(e2[k:], c2[k:]))
+        if mrows == irows:
+            m = dict(m, edges=list(m["edges"][:k]) + [tuple(int(x) for x in r) for r in e2[k:]], cr=list(m["cr"][:k]) + [tuple(int(x) for x in r) for r in c2[k:]])
     if [tuple(r) for r in m["edges"]] != [tuple(int(x) for x in r) for r in e2]:
         bad = [i for i, (a, b) in enumerate(zip(m["edges"], e2)) if tuple(a) != tuple(int(x) for x in b)]
         return f"edge indices differ at rows {bad[:5]}: model {[m['edges'][i] for i in bad[:3]]} impl {[e2[i].tolist() for i in bad[:3]]}"
@@ -758,7 +766,7 @@ def evaluate(ctx, cases, label):
                     res.skip("truncation not compared exactly: a new corner within 1e-9 of a cell line")
                 else:
                     res.traces += 1
-                    diff = k_trunc(m, out_lat, S)
+                    diff = k_trunc(m, out_lat, S, n_orig_edges=len(edges))
                     if diff:
                         ctx.k_mismatch(f"{label}: trunc {('None' if sel is None else sel_list[:6])}: {diff}", one)
                 seen = set()
